@@ -3168,7 +3168,8 @@ func (e *bincEncDriverBytes) EncodeFloat64(f float64) {
 func (e *bincEncDriverBytes) encIntegerPrune32(bd byte, pos bool, v uint64) {
 	b := bigen.PutUint32(uint32(v))
 	if bincDoPrune {
-		i := byte(pruneSignExt(b[:], pos))
+
+		i := byte(pruneSignExt(b[:], true))
 		e.w.writen1(bd | 3 - i)
 		e.w.writeb(b[i:])
 	} else {
@@ -3180,7 +3181,8 @@ func (e *bincEncDriverBytes) encIntegerPrune32(bd byte, pos bool, v uint64) {
 func (e *bincEncDriverBytes) encIntegerPrune64(bd byte, pos bool, v uint64) {
 	b := bigen.PutUint64(v)
 	if bincDoPrune {
-		i := byte(pruneSignExt(b[:], pos))
+
+		i := byte(pruneSignExt(b[:], true))
 		e.w.writen1(bd | 7 - i)
 		e.w.writeb(b[i:])
 	} else {
@@ -7237,7 +7239,8 @@ func (e *bincEncDriverIO) EncodeFloat64(f float64) {
 func (e *bincEncDriverIO) encIntegerPrune32(bd byte, pos bool, v uint64) {
 	b := bigen.PutUint32(uint32(v))
 	if bincDoPrune {
-		i := byte(pruneSignExt(b[:], pos))
+
+		i := byte(pruneSignExt(b[:], true))
 		e.w.writen1(bd | 3 - i)
 		e.w.writeb(b[i:])
 	} else {
@@ -7249,7 +7252,8 @@ func (e *bincEncDriverIO) encIntegerPrune32(bd byte, pos bool, v uint64) {
 func (e *bincEncDriverIO) encIntegerPrune64(bd byte, pos bool, v uint64) {
 	b := bigen.PutUint64(v)
 	if bincDoPrune {
-		i := byte(pruneSignExt(b[:], pos))
+
+		i := byte(pruneSignExt(b[:], true))
 		e.w.writen1(bd | 7 - i)
 		e.w.writeb(b[i:])
 	} else {
